@@ -32,7 +32,7 @@ REQUIRED = {"post:__call__": 200, "post:build_posterior": 100, "cases:hetero_d>=
 
 def jobs(tier, seed):
     n_jobs = 16 if tier == "quick" else 32
-    return [{"name": f"gpr-{j}", "seed": seed, "j": j, "n_cases": 25 if tier == "quick" else 200} for j in range(n_jobs)]
+    return [{"name": f"gpr-{j}", "seed": seed, "j": j, "n_cases": 100 if tier == "quick" else 600} for j in range(n_jobs)]
 
 
 def make_problem(rng):
